@@ -258,7 +258,79 @@ def auto_discharge(ctx, s):
     return None
 
 
+def check_content_range(ctx, out, rule="C04.contentrange"):
+    """The invariant behind the discharged slice in `Block::content` (`&source[content_bytes_range]`): the range
+    is `0..0`, or runs from the end of the start tag's comment to the start of the end tag's comment *and these
+    are two different comments* (then the first precedes the second in the file). Every `Range<usize>` that
+    reaches `Block::new` as the content byte range is either the constant `0..0` or is built on a path on which
+    `Rc::ptr_eq(start comment, end comment)` was tested and found false (or its two ends were compared). A
+    range built from one comment's end and the same comment's start has start > end: slicing panics."""
+    n = 0
+    sites = []
+    for b in ctx.reachable_bodies():
+        if b.promoted is not None:
+            continue
+        if any((t.get("res") or "") == "blockwatch::blocks::Block::new" for bi, t in b.calls()):
+            sites.append(b)
+    for b0 in sites:
+        v = ctx.inl(b0, skip=lambda cb: cb.id == "blockwatch::blocks::Block::new" or ctx.domain_api(cb), tag="C04-contentrange", sugar=True)
+        cfg = cfg_of(v)
+        for bi, t in v.calls():
+            if (t.get("res") or "") != "blockwatch::blocks::Block::new" or bi not in cfg.reachable:
+                continue
+            idx = [i for i, ty in enumerate(t.get("arg_tys") or []) if ty == "std::ops::Range<usize>"]
+            if len(idx) != 1:
+                continue
+            # the aggregates that may be the value of this operand
+            aggs = []
+            work = [t["args"][idx[0]]]
+            seen = set()
+            while work:
+                op = work.pop()
+                pl = op.get("c") or op.get("m")
+                if pl is None or pl["p"] or pl["l"] in seen:
+                    continue
+                seen.add(pl["l"])
+                for d in v.defs().get(pl["l"], []):
+                    if d[0] == "stmt" and not d[3]["lhs"]["p"]:
+                        rv = d[3]["rv"]
+                        if rv["k"] == "agg" and (rv.get("path") or "").endswith("ops::Range"):
+                            aggs.append((d[1], d[3]))
+                        elif rv["k"] == "use":
+                            work.append(rv["op"])
+                        else:
+                            aggs.append((d[1], None))
+                    elif d[0] == "call":
+                        aggs.append((d[1], None))
+            if not aggs:
+                out.viol(rule, "%s|%s|unresolved" % (rule, b0.id), ctx.where(v, t["span"]), "the content byte range handed to `Block::new` could not be traced to the ranges it is built from")
+                continue
+            for abi, st in aggs:
+                if st is None:
+                    out.viol(rule, "%s|%s|unresolved" % (rule, b0.id), ctx.where(v, t["span"]), "the content byte range handed to `Block::new` is not a range built in place: its start <= end invariant is not visible")
+                    continue
+                ops = st["rv"]["ops"]
+                if all(isinstance(o.get("k"), dict) and o["k"].get("int") == 0 for o in ops):
+                    n += 1
+                    continue
+                gs = util.guards(ctx, v, abi)
+                ok = False
+                for br, vals, e in gs:
+                    txt = render(e, 400)
+                    if "ptr_eq(" in txt and vals == {0}:
+                        ok = True
+                    if e[0] == "bin" and e[1] in ("Le", "Lt", "Ge", "Gt") and "source_range" in txt:
+                        ok = True
+                if ok:
+                    n += 1
+                else:
+                    out.viol(rule, "%s|%s|unguarded" % (rule, b0.id), ctx.where(v, st["span"]),
+                             "a block's content byte range is built as `%s` on a path that has not established that the two tags lie in different comments (`!Rc::ptr_eq(..)`): for a block opened and closed in one comment the range starts at the comment's end and ends at its start, and `Block::content` panics slicing the source with it" % render(ctx.expr(v).rvalue(st["rv"]), 160))
+    out.inst(rule, n, 2, note="content byte ranges reaching Block::new: the constant 0..0, or built under !Rc::ptr_eq(start comment, end comment)")
+
+
 def run(ctx, out, tier):
+    check_content_range(ctx, out)
     table = json.load(open(os.path.join(SPEC, "panic_sites.json")))
     loops_t = json.load(open(os.path.join(SPEC, "loops.json")))
     bodies = ctx.reachable_bodies()
